@@ -274,6 +274,7 @@ protected:
 
     // Parse frames from the local buffer (outside lock)
     std::size_t offset = 0;
+    WsHeaderStatus headerStatus = WsHeaderStatus::OK;
     while (offset < localBuffer.size())
     {
       core::BufferView view(localBuffer.data() + offset,
@@ -283,11 +284,35 @@ protected:
 
       if (!frame)
       {
+        // Incomplete - or a frame that can never be accepted. Tell them apart so a
+        // hostile header cannot make this session buffer without bound.
+        headerStatus = WebSocketFrame::inspectHeader(view, _maxFrameSize);
         break;
       }
 
       offset += consumed;
       handleFrame(sid, *frame);
+    }
+
+    if (headerStatus == WsHeaderStatus::PROTOCOL_ERROR ||
+        headerStatus == WsHeaderStatus::TOO_LARGE)
+    {
+      // Fail the WebSocket connection (RFC 6455 §7.1.7): close frame, drop the
+      // session state (and with it everything buffered), close the TCP connection.
+      const bool tooLarge = (headerStatus == WsHeaderStatus::TOO_LARGE);
+      sendClose(sid, tooLarge ? 1009 : 1002,
+                tooLarge ? "Message Too Big" : "Protocol error");
+      if (_onError)
+      {
+        _onError(sid, tooLarge ? "Frame header declares more than maxFrameSize"
+                               : "Malformed frame header");
+      }
+      {
+        std::lock_guard<std::mutex> lock(_wsMutex);
+        _sessions.erase(sid);
+      }
+      closeSession(sid);
+      return;
     }
 
     // Put unconsumed remainder back
